@@ -24,13 +24,21 @@
 (*          r = clock ports that rose, v = name -> new value for every      *)
 (*          recorded name that changed in that tick (simulator integers,    *)
 (*          memories: <<word index, value>> pairs under m)                  *)
+(*   pini   name -> FHDL reset value of the variables that are declared as  *)
+(*          `output reg` ports (the back end prints no initial value for    *)
+(*          them).  Only used by the hypothesis chain hyp = 1, which never  *)
+(*          gives the verdict: if the plain chain (hyp = 0) of a design is  *)
+(*          rejected and its hyp = 1 chain is accepted, the cause of the    *)
+(*          rejection is the missing initial value of a port register.      *)
+(* A chain stops at its first rejected step (no successor), so a run with   *)
+(* -continue names every rejected chain exactly once.                       *)
 (***************************************************************************)
 EXTENDS VerilogSem, Json, IOUtils
 
 T == JsonDeserialize(IOEnv.TRACES)
 
-VARIABLES tid, l, st, rec, ord, bad
-vars == <<tid, l, st, rec, ord, bad>>
+VARIABLES tid, hyp, l, st, rec, ord, bad
+vars == <<tid, hyp, l, st, rec, ord, bad>>
 
 Tr == T[tid]
 
@@ -46,10 +54,11 @@ Merge(tr, r, e) ==
      ELSE r[n]]
 
 (* initial valuation of the Verilog module: declared initial values, else 0; memories from their image *)
-MemImage(tr, n) == [i \in 1..tr.D[n].d |-> IF n \in DOMAIN tr.ini /\ i <= Len(tr.ini[n]) THEN tr.ini[n][i] ELSE 0]
-Power(tr) == [n \in DOMAIN tr.D |->
+MemImage(tr, n) == [i \in 1..tr.D[n].d |-> IF n \in DOMAIN tr.ini /\ i <= Len(tr.ini[n]) THEN tr.ini[n][i] % P2(tr.D[n].w) ELSE 0]
+Power(tr, h) == [n \in DOMAIN tr.D |->
                 IF IsMem(tr.D, n) THEN MemImage(tr, n)
-                ELSE IF n \in DOMAIN tr.ini THEN tr.ini[n] ELSE 0]
+                ELSE IF n \in DOMAIN tr.ini THEN tr.ini[n]
+                ELSE IF h = 1 /\ n \in DOMAIN tr.pini THEN ToBits(tr.pini[n], tr.D[n].w) ELSE 0]
 InsSet(tr) == {tr.ins[i] : i \in 1..Len(tr.ins)}
 CmpSet(tr) == {tr.cmp[i] : i \in 1..Len(tr.cmp)}
 
@@ -57,16 +66,18 @@ Rec0(tr) == [n \in CmpSet(tr) \cup InsSet(tr) |->
                IF IsMem(tr.D, n) THEN [i \in 1..tr.D[n].d |-> Bits(tr, n, tr.v0[n][i])] ELSE Bits(tr, n, tr.v0[n])]
 
 Init == /\ tid \in 1..Len(T)
+        /\ hyp \in (IF DOMAIN T[tid].pini = {} THEN {0} ELSE {0, 1})
         /\ l = 1
         /\ ord = Ordered(T[tid].items)
         /\ rec = Rec0(T[tid])
         /\ LET tr == T[tid]
-               p == Power(tr)
+               p == Power(tr, hyp)
                v == [n \in DOMAIN p |-> IF n \in InsSet(tr) THEN Rec0(tr)[n] ELSE p[n]]
                s == SettleO(tr.items, tr.D, v, Plain, Ordered(tr.items))
            IN st = s[1] /\ bad = ~s[2]
 
 Next == /\ l <= Len(Tr.ev)
+        /\ \A n \in CmpSet(Tr) : st[n] = rec[n]            \* a rejected chain stops
         /\ LET tr == Tr
                e == tr.ev[l]
                r2 == Merge(tr, rec, e)
@@ -78,7 +89,7 @@ Next == /\ l <= Len(Tr.ev)
               /\ st' = s[1]
               /\ bad' = ~s[2]
         /\ l' = l + 1
-        /\ UNCHANGED <<tid, ord>>
+        /\ UNCHANGED <<tid, hyp, ord>>
 
 ---------------------------------------------------------------------------
 (* harness obligations: the record is well formed, the combinational logic settles *)
@@ -88,11 +99,23 @@ EnvLegal ==
        /\ \A n \in DOMAIN tr.D : tr.D[n].w \in 1..MaxW
        /\ InsSet(tr) \subseteq DOMAIN tr.D /\ CmpSet(tr) \subseteq DOMAIN tr.D
        /\ \A n \in DOMAIN tr.ini : n \in DOMAIN tr.D
-       /\ \A n \in DOMAIN tr.D : IsMem(tr.D, n) /\ n \in DOMAIN tr.ini =>
-             /\ Len(tr.ini[n]) <= tr.D[n].d
-             /\ \A i \in 1..Len(tr.ini[n]) : tr.ini[n][i] \in 0..(P2(tr.D[n].w) - 1)
+
+(* clause SingleDriver: a variable that two processes (always blocks / continuous assignments) assign has no   *)
+(* single meaning under IEEE 1364 (the order in which the processes run is not defined, 11.4.2) and is refused  *)
+(* by synthesis; memories are exempt (one process per port is the dual-port template).                          *)
+MultiDriven(tr) ==
+  LET its == {i \in 1..Len(tr.items) : tr.items[i].k \in {"assign", "always"}}
+      drv == [i \in its |-> ItemDrives(tr.items[i])]
+  IN {n \in DOMAIN tr.D : ~IsMem(tr.D, n) /\ Cardinality({i \in its : n \in drv[i]}) > 1}
+SingleDriver == (l = 1 /\ hyp = 0) => (MultiDriven(Tr) = {} \/ (PrintT(<<"MULTI", tid, MultiDriven(Tr)>>) /\ FALSE))
+
+(* clause ImageLegal: the data file convert() returned for $readmemh holds at most `depth` words and every word *)
+(* fits the memory width (17.2.9: a longer file / wider word is an error or is truncated, tool dependent)          *)
+BadImages(tr) == {n \in DOMAIN tr.D : IsMem(tr.D, n) /\ n \in DOMAIN tr.ini /\
+                    (Len(tr.ini[n]) > tr.D[n].d \/ \E i \in 1..Len(tr.ini[n]) : tr.ini[n][i] >= P2(tr.D[n].w))}
+ImageLegal == (l = 1 /\ hyp = 0) => (BadImages(Tr) = {} \/ (PrintT(<<"IMAGE", tid, BadImages(Tr)>>) /\ FALSE))
 
 (* the clause *)
 Differs == {n \in CmpSet(Tr) : st[n] # rec[n]}
-StepEq == Differs = {} \/ (PrintT(<<"DIFF", tid, l - 1, Differs, [n \in Differs |-> <<st[n], rec[n]>>]>>) /\ FALSE)
+StepEq == Differs = {} \/ (PrintT(<<"DIFF", tid, hyp, l - 1, [n \in Differs |-> <<st[n], rec[n]>>]>>) /\ FALSE)
 =============================================================================
